@@ -6,6 +6,7 @@ pub mod foreign;
 pub mod handles;
 pub mod hist;
 pub mod hostile;
+pub mod modes;
 pub mod more;
 pub mod names;
 
@@ -23,6 +24,7 @@ pub fn dispatch(ctx: &Ctx, rep: &mut Report) -> bool {
         "C10" => more::run_c10(ctx, rep),
         "C11" => hostile::run_c11(ctx, rep),
         "C15" => more::run_c15(ctx, rep),
+        "C16" => modes::run_c16(ctx, rep),
         "C17" => more::run_c17(ctx, rep),
         "C18" => diff::run_c18(ctx, rep),
         _ => return false,
